@@ -193,4 +193,7 @@ theorem search_true {α : Type} (p : α → Bool) (cs : List α) :
   rw [search_true_fold p cs none]
   by_cases h : cs.any p = true <;> simp [h]
 
+theorem setInsert_eq_hsSet' : (fun (next : List Hash) (n : Hash) => setInsert next n) = hsSet := by
+  funext m k; rfl
+
 end Model.SlicesGen
